@@ -265,6 +265,12 @@ def error_type_validator(value: object) -> None:
 #
 # XSD builtin decoding functions
 
+def integer_to_python(value: Union[SupportsInt, str]) -> int:
+    if isinstance(value, str) and datatypes.Integer.pattern.match(value) is None:
+        raise ValueError(f'invalid literal for int() with base 10: {value!r}')
+    return int(value)
+
+
 def boolean_to_python(value: str) -> bool:
     try:
         return XSD_BOOLEAN_MAP[value]
